@@ -70,7 +70,23 @@ def ResultV.decEqL : (a b : List ResultV) → Decidable (a = b)
   | [], _ :: _ | _ :: _, [] => isFalse nofun
 end
 
-instance : DecidableEq ResultV := ResultV.decEq
+/-- the instance looks at the two constructors first, without recursion (so that ` + "`decide`" + ` on a computed result evaluates as it does
+for a derived instance); only the children are compared by the recursive function -/
+instance : DecidableEq ResultV := fun a b =>
+  match a, b with
+  | .unset, .unset => isTrue rfl
+  | .token p, .token q => if h : p = q then isTrue (h ▸ rfl) else isFalse (fun h' => h (by injection h'))
+  | .int p, .int q => if h : p = q then isTrue (h ▸ rfl) else isFalse (fun h' => h (by injection h'))
+  | .str p, .str q => if h : p = q then isTrue (h ▸ rfl) else isFalse (fun h' => h (by injection h'))
+  | .children p, .children q =>
+    match ResultV.decEqL p q with
+    | isTrue h => isTrue (h ▸ rfl)
+    | isFalse h => isFalse (fun h' => h (by injection h'))
+  | .unset, .token _ | .unset, .int _ | .unset, .str _ | .unset, .children _
+  | .token _, .unset | .token _, .int _ | .token _, .str _ | .token _, .children _
+  | .int _, .unset | .int _, .token _ | .int _, .str _ | .int _, .children _
+  | .str _, .unset | .str _, .token _ | .str _, .int _ | .str _, .children _
+  | .children _, .unset | .children _, .token _ | .children _, .int _ | .children _, .str _ => isFalse nofun
 
 /-- ` + "`result.Children`" + ` read from a ` + "`*Result`" + `: ` + "`none`" + ` = the nil slice (every value that is not ` + "`.children`" + `; a ` + "`.children c`" + ` holds
 the slice ` + "`make`" + ` built, which is not nil even when it is empty) -/
